@@ -8,6 +8,7 @@ cases:  ["enc_sdp", P]            -> ["ok", bytes, decoded(P)] | ["error", class
         ["enc_scp", Q, n_args]    -> ["ok", bytes, decoded(Q) with n_args] | ["error", class]
         ["dec_sdp", bytes]        -> ["ok", P] | ["error", class]
         ["dec_scp", bytes, n]     -> ["ok", Q] | ["error", class]      (n null: the default n_args)
+        ["hist_enc", ...], ["hist_dec", ...]  -> object-reuse histories, see hist_enc / hist_dec
         ["sweep16", field, base Q, lo, hi]     -> digest of the encodings with field = lo..hi-1
         ["sweep16raw", field, base Q, lo, hi, n] -> the encodings themselves (for the oracle)
         ["sweep16dec", pos, base bytes, lo, hi, n] -> digest of the numeric fields decoded with bytes pos, pos+1 = v
@@ -21,12 +22,12 @@ H = ["reply_expected", "tag", "dest_port", "dest_cpu", "src_port", "src_cpu", "d
 S = ["cmd_rc", "seq", "arg1", "arg2", "arg3"]
 
 
-def mk_sdp(p):
-    return SDPPacket(**dict(zip(H, p[:10]), data=bytes(p[10])))
+def mk_sdp(p, buf=bytes):
+    return SDPPacket(**dict(zip(H, p[:10]), data=buf(p[10])))
 
 
-def mk_scp(q):
-    return SCPPacket(**dict(zip(H + ["data"] + S, q[:10] + [bytes(q[10])] + q[11:16])))
+def mk_scp(q, buf=bytes):
+    return SCPPacket(**dict(zip(H + ["data"] + S, q[:10] + [buf(q[10])] + q[11:16])))
 
 
 def show_sdp(p):
@@ -81,8 +82,82 @@ def sweep_packet(base, f, v):
     return q
 
 
+def hist_enc(c):
+    """["hist_enc", "sdp"|"scp", packet, mutable payload?, ops]: ONE packet object through
+    ["enc", n_args] (-> like enc_sdp / enc_scp) | ["set", field index, value, mutable?] (attribute
+    assignment) | ["poke", i, v] | ["trunc", n] | ["refill", bytes] | ["extend", bytes] (the bytearray payload
+    changed in place).  -> ["hist", [result of every enc step]]"""
+    scp = c[1] == "scp"
+    pkt = (mk_scp if scp else mk_sdp)(c[2], bytearray if c[3] else bytes)
+    names = H + ["data"] + S
+    out = []
+    for op in c[4]:
+        if op[0] == "enc":
+            r = enc(pkt)
+            if r[0] == "ok":
+                r = r + [dec(SCPPacket, show_scp, r[1], op[1]) if scp else dec(SDPPacket, show_sdp, r[1])]
+            out.append(r)
+        elif op[0] == "set":
+            v = op[2]
+            if op[1] == 10:
+                v = bytearray(v) if op[3] else bytes(v)
+            setattr(pkt, names[op[1]], v)
+        elif op[0] == "poke":
+            pkt.data[op[1]] = op[2]
+        elif op[0] == "trunc":
+            del pkt.data[op[1]:]
+        elif op[0] == "refill":
+            pkt.data[:] = bytes(op[1])
+        elif op[0] == "extend":
+            pkt.data.extend(bytes(op[1]))
+        else:
+            raise ValueError(op)
+    return ["hist", out]
+
+
+def hist_dec(c):
+    """["hist_dec", steps]: ["dec", "sdp"|"scp", bytes, n_args] decodes a datagram into a new object (kept);
+    ["mod", object index, field index, value] assigns a field of an earlier decoded object; ["turn", index]
+    swaps its source and destination.  -> ["hist", [result of every dec step, shown at once]]"""
+    names = H + ["data"] + S
+    objs, out = [], []
+    for st in c[1]:
+        if st[0] == "dec":
+            try:
+                if st[1] == "scp":
+                    o = SCPPacket.from_bytestring(bytes(st[2]), *([] if st[3] is None else [st[3]]))
+                    out.append(["ok", show_scp(o)])
+                else:
+                    o = SDPPacket.from_bytestring(bytes(st[2]))
+                    out.append(["ok", show_sdp(o)])
+                objs.append(o)
+            except Exception as e:
+                objs.append(None)
+                out.append(err(e))
+        elif st[0] == "mod":
+            o = objs[st[1]]
+            if o is not None and (st[2] <= 10 or isinstance(o, SCPPacket)):
+                setattr(o, names[st[2]], bytes(st[3]) if st[2] == 10 else st[3])
+        elif st[0] == "turn":
+            o = objs[st[1]]
+            if o is not None:
+                o.dest_x, o.src_x = o.src_x, o.dest_x
+                o.dest_y, o.src_y = o.src_y, o.dest_y
+                o.dest_cpu, o.src_cpu = o.src_cpu, o.dest_cpu
+                o.dest_port, o.src_port = o.src_port, o.dest_port
+                o.reply_expected = False
+                o.tag = 0xff
+        else:
+            raise ValueError(st)
+    return ["hist", out]
+
+
 def run_case(c):
     k = c[0]
+    if k == "hist_enc":
+        return hist_enc(c)
+    if k == "hist_dec":
+        return hist_dec(c)
     if k == "enc_sdp":
         r = enc(mk_sdp(c[1]))
         return r + [dec(SDPPacket, show_sdp, r[1])] if r[0] == "ok" else r
